@@ -2,7 +2,7 @@
 
 use crate::posmon::{Node, Oracle};
 use crate::real::{mv, mv_back, pos};
-use crate::report::Collector;
+use refmodel::report::Collector;
 use chess_bitboard::BitBoard;
 use chess_movegen::Board;
 use refmodel::json::obj;
